@@ -207,9 +207,14 @@ WellFormed(t) ==
 \* symbol keys only.
 LeafKeyed(m) == \A key \in MapKeys(m) : key.k = "leaf"
 UnfoldedRepl(m) == \A x \in DOMAIN m : Doit(m[x][2]) = m[x][2]
+\* the part of a map that speaks about free symbols of t: a key that only occurs bound in t
+\* (a summation index) must not matter, whatever else the map contains
+RestrictFree(m, t) == SelectSeq(m, LAMBDA p : p[1].k # "leaf" \/ p[1].h \in FreeSyms(t))
 LawSubstEval(t, m) ==
   (Admissible(t, m) /\ LeafKeyed(m)) =>
      /\ Doit(Subst(t, m)) = Doit(Subst(Doit(t), m))
+     /\ Doit(Subst(t, m)) = Doit(Subst(Doit(t), RestrictFree(m, t)))
+     /\ Subst(t, m) = Subst(t, RestrictFree(m, t))
      /\ UnfoldedRepl(m) => Doit(Subst(t, m)) = Subst(Doit(t), m)
 \* C18: a substitution for a symbol that only occurs bound leaves the sum unchanged
 LawBoundIdentity(t, m) ==
